@@ -570,7 +570,7 @@ def guessed_times(spec, H, guesses):
         if g is not None:
             return ca.MX(ca.DM(g))
         if kind[0] == "free":
-            return ca.MX(ca.DM(kind[1]))
+            return ca.MX(ca.DM(kind[1] if kind[1] != "unknown" else spec.free_guess[key]))
         return ca.MX(H.T if key == "T" else H.t0)      # number / parameter value
     T = horizon("T", spec.T)
     t0 = horizon("t0", spec.t0)
@@ -713,5 +713,24 @@ def expected_initial(spec, meth, values):
                         else:
                             exp = column(val, n, k, k, True)
                         out.append((("x", i, "helper", k, l, j), h, exp))
+            off += n
+        # algebraic variables exist at the collocation times: constants everywhere, time expressions at those times
+        off = 0
+        for i, n in enumerate(spec.algebraics):
+            val = last.get(("z", i))
+            for k in range(N):
+                dt = (ts[k + 1] - ts[k]) / M
+                for l in range(M):
+                    Zc = ca.MX(m.Zc[k][l])
+                    for j in range(spec.degree):
+                        h = Zc[off:off + n, j]
+                        tt = ts[k] + l * dt + dt * tau[j]
+                        if val is None:
+                            exp = ca.DM.zeros(n)
+                        elif isinstance(val, E):
+                            exp = val.on(lambda a, tt=tt: {"t": tt}[a])
+                        else:
+                            exp = column(val, n, k, k, True)
+                        out.append((("z", i, "collocation", k, l, j), h, exp))
             off += n
     return out
